@@ -35,9 +35,9 @@ ASSUMPTIONS = [
     "numpy einsum is trusted; tolerance 1e-9 relative to the largest entry of the expected 6x6",
 ]
 BOUND = {
-    "quick": "n_grains in {1,2,3}; 1-3 snapshots; 5 fraction letters; 3 volume letters; 5 stiffness sets; "
+    "quick": "n_grains in {1,2,3,40}; 1-3 snapshots; 5 fraction letters; 3 volume letters; 5 stiffness sets; "
     "6 frame rotations (3 cube + 3 generic)",
-    "thorough": "n_grains in {1,2,3,4,6}; 1-4 snapshots; 8 fraction letters incl. (1,0),(0,1); 7 volume "
+    "thorough": "n_grains in {1,2,3,4,6,200}; 1-4 snapshots; 8 fraction letters incl. (1,0),(0,1); 7 volume "
     "letters; 4 texture kinds (adds mixed cube/generic/near-identity); all FRAME rotations",
 }
 
@@ -53,8 +53,8 @@ TEX_Q = ["ident", "cube", "gen"]
 TEX_T = TEX_Q + ["mixed"]
 VOL_Q = ["uniform", "dominant", "onezero"]
 VOL_T = VOL_Q + ["geometric", "allbutone", "dup", "dirichlet"]
-N_Q = [1, 2, 3]
-N_T = [1, 2, 3, 4, 6]
+N_Q = [1, 2, 3, 40]
+N_T = [1, 2, 3, 4, 6, 200]
 STIFF = ["builtin", "custom", "seeded", "integer", "f32int"]
 QCUBE_QUICK = ["cube03", "cube10", "cube17"]
 
